@@ -20,7 +20,7 @@ def run(tier):
     common.build(["hook", "dev"])
     common.replay_witnesses(ck, ["hook", "dev"])
     common.replay_known(ck)
-    n = 1200 if quick else 40000
+    n = 1200 if quick else 40000 * common.TS
     rng = ck.rng.fork("hist")
     plist = []
     for i in range(n):
@@ -28,7 +28,7 @@ def run(tier):
         plist.append({"name": "hist/%d" % i, "steps": steps, "mods": mods})
 
     r2 = ck.rng.fork("host")
-    for i in range(300 if quick else 10000):
+    for i in range(300 if quick else 10000 * common.TS):
         steps, mods = feat_repl.host_history(r2.fork(str(i)))
         plist.append({"name": "host/%d" % i, "steps": steps, "mods": mods})
 
